@@ -486,6 +486,7 @@ impl ProcCase {
             "check" => "check",
             "compile" => "compile",
             "run" => "run",
+            "runobj" => "runobj",
             _ => return None,
         };
         Some(ProcCase {
@@ -517,8 +518,17 @@ impl ProcCase {
     fn observe(&self, dir: &Path) -> Option<String> {
         std::fs::write(dir.join("f.asm"), &self.src).unwrap();
         let _ = std::fs::remove_file(dir.join("out.lc3"));
+        if self.cmd == "runobj" {
+            // set-up, not observed: the object file of the source, compiled with the feature
+            let _ = std::fs::remove_file(dir.join("f.lc3"));
+            let c = spawn(dir, &["compile", "f.asm", "f.lc3", "-f", "stack"], &[], 10_000);
+            if c.status != Some(0) || !dir.join("f.lc3").exists() {
+                return Some("st=nocompile".into());
+            }
+        }
         let mut args: Vec<String> = self.global_args();
         args.extend(match self.cmd {
+            "runobj" => vec!["run".to_string(), "f.lc3".into(), "--minimal".into()],
             "check" => vec!["check".to_string(), "f.asm".into()],
             "compile" => vec!["compile".to_string(), "f.asm".into(), "out.lc3".into()],
             _ => vec!["run".to_string(), "f.asm".into(), "--minimal".into()],
@@ -592,7 +602,7 @@ const P_FLAGS: &[(char, &str)] = &[
     ('G', "stack,stack"),
 ];
 
-const P_CMDS: &[&str] = &["compile", "run", "check"];
+const P_CMDS: &[&str] = &["compile", "run", "check", "runobj"];
 
 fn proc_cases(o: &crate::Opts) -> Vec<(&'static str, ProcCase)> {
     let mut v: Vec<(&'static str, ProcCase)> = Vec::new();
